@@ -53,7 +53,7 @@ func runC07(c *core.Ctx) {
 			}
 		},
 	})
-	c.CasesPar("order", c.N(4000, 30000), 4, func(k *core.Case) {
+	c.CasesPar("order", c.N(4000, 160000), 4, func(k *core.Case) {
 		r := k.R
 		cfg := genWriterCfg(r, "")
 		cfg.Async = r.Chance(2, 3)
